@@ -28,6 +28,8 @@ Hypothesis HE : 0 < E.
 Hypothesis HK : 0 < K.
 Hypothesis Hn : 0 < n < 1.
 Hypothesis HKp : 1 <= Kp.
+(* every lemma of the section takes all four guards, whether its proof needs them or not (uniform signatures) *)
+#[local] Set Default Proof Using "HE HK Hn HKp".
 
 Notation eps := (ro_strain E K n).
 Notation compl := (ro_tangential_compliance E K n).
@@ -513,4 +515,211 @@ Proof.
   split; [split|]; lra.
 Qed.
 
+Lemma en_strain_is_ramberg_osgood s L ds dl :
+  en_strain E K n Kp s L = eps s /\ en_strain_secondary_branch E K n Kp ds dl = 2 * eps (ds / 2).
+Proof. split; reflexivity. Qed.
+
 End EN.
+
+(* ================================================================== Seeger-Beste *)
+Section SB.
+Variables E K n Kp : R.
+Hypothesis HE : 0 < E.
+Hypothesis HK : 0 < K.
+Hypothesis Hn : 0 < n < 1.
+Hypothesis HKp : 1 < Kp.
+#[local] Set Default Proof Using "HE HK Hn HKp".
+
+Notation eps := (ro_strain E K n).
+Notation F := (sb_stress_implicit E K n Kp).
+Notation F2 := (sb_stress_secondary_implicit E K n Kp).
+Notation U := (sb_u_term E K n Kp).
+Notation M := (sb_middle_term E K n Kp).
+Notation N := (sb_neuber_strain E K n Kp).
+
+Lemma sb_F_unfold s L : F s L = eps s / (M s L * N s L) - 1.
+Proof. reflexivity. Qed.
+
+Lemma sb_U_unfold s L : U s L = PI / 2 * (((if Req_EM_T s 0 then 1 else L / s) - 1) / (Kp - 1)).
+Proof. reflexivity. Qed.
+
+Lemma sb_M_unfold s L :
+  M s L = (if Req_EM_T (U s L) 0 then 1 else 2 / (U s L) ^ 2)
+          * ln (if Rlt_dec 0 (cos (U s L)) then 1 / cos (U s L) else 1)
+          + (if Req_EM_T L 0 then 1 else s / L) ^ 2 - (if Req_EM_T L 0 then 1 else s / L).
+Proof. reflexivity. Qed.
+
+Lemma sb_N_unfold s L : N s L = (if Req_EM_T s 0 then 1 else L / s) * Kp * eps (L / Kp).
+Proof. reflexivity. Qed.
+
+(* -------- joint negation of stress and load leaves the equation unchanged: roots for -L are the negated roots for L *)
+Lemma sb_U_neg s L : U (- s) (- L) = U s L.
+Proof.
+  rewrite !sb_U_unfold.
+  destruct (Req_EM_T s 0) as [H0|H0]; destruct (Req_EM_T (- s) 0) as [H1|H1]; try lra.
+  replace (- L / - s) with (L / s) by (field; assumption). reflexivity.
+Qed.
+
+Lemma sb_M_neg s L : M (- s) (- L) = M s L.
+Proof.
+  rewrite !sb_M_unfold, sb_U_neg.
+  destruct (Req_EM_T L 0) as [H0|H0]; destruct (Req_EM_T (- L) 0) as [H1|H1]; try lra.
+  replace (- s / - L) with (s / L) by (field; assumption). reflexivity.
+Qed.
+
+Lemma sb_N_neg s L : N (- s) (- L) = - N s L.
+Proof.
+  rewrite !sb_N_unfold.
+  replace (- L / Kp) with (- (L / Kp)) by (unfold Rdiv; ring). rewrite C16.ro_strain_odd.
+  destruct (Req_EM_T s 0) as [H0|H0]; destruct (Req_EM_T (- s) 0) as [H1|H1]; try lra.
+  replace (- L / - s) with (L / s) by (field; assumption). ring.
+Qed.
+
+Lemma sb_equation_joint_negation s L : F (- s) (- L) = F s L.
+Proof.
+  rewrite !sb_F_unfold, sb_M_neg, sb_N_neg, C16.ro_strain_odd.
+  replace (M s L * - N s L) with (- (M s L * N s L)) by ring.
+  unfold Rdiv. rewrite Rinv_opp. ring.
+Qed.
+
+Lemma sb_root_odd s L : F s L = 0 <-> F (- s) (- L) = 0.
+Proof. rewrite sb_equation_joint_negation. tauto. Qed.
+
+(* -------- secondary branch (eq. 2.8-43) = the primary equation at half the stress range and half the load range *)
+Lemma sb_secondary_is_masing_eq ds dl : F2 ds dl = F (ds / 2) (dl / 2).
+Proof.
+  assert (HKp0 : 0 < Kp) by lra.
+  assert (HU : sb_u_term_secondary E K n Kp ds dl = U (ds / 2) (dl / 2)).
+  { unfold sb_u_term_secondary. cbv zeta. rewrite sb_U_unfold.
+    destruct (Req_EM_T ds 0) as [H0|H0]; destruct (Req_EM_T (ds / 2) 0) as [H1|H1]; try lra.
+    replace (dl / 2 / (ds / 2)) with (dl / ds) by (field; assumption). reflexivity. }
+  assert (HM : sb_middle_term_secondary E K n Kp ds dl = M (ds / 2) (dl / 2)).
+  { unfold sb_middle_term_secondary. cbv zeta. rewrite HU, sb_M_unfold.
+    destruct (Req_EM_T dl 0) as [H0|H0]; destruct (Req_EM_T (dl / 2) 0) as [H1|H1]; try lra.
+    replace (ds / 2 / (dl / 2)) with (ds / dl) by (field; assumption). reflexivity. }
+  assert (HN : sb_neuber_strain_secondary E K n Kp ds dl = 2 * N (ds / 2) (dl / 2)).
+  { unfold sb_neuber_strain_secondary, sb_delta_e_star. cbv zeta. rewrite sb_N_unfold, C16.ro_delta_is_doubled.
+    replace (dl / Kp / 2) with (dl / 2 / Kp) by (field; lra).
+    destruct (Req_EM_T ds 0) as [H0|H0]; destruct (Req_EM_T (ds / 2) 0) as [H1|H1]; try lra.
+    replace (dl / 2 / (ds / 2)) with (dl / ds) by (field; assumption). ring. }
+  unfold sb_stress_secondary_implicit. cbv zeta. rewrite HM, HN, C16.ro_delta_is_doubled, sb_F_unfold.
+  replace (M (ds / 2) (dl / 2) * (2 * N (ds / 2) (dl / 2))) with (2 * (M (ds / 2) (dl / 2) * N (ds / 2) (dl / 2))) by ring.
+  unfold Rdiv. rewrite (Rinv_mult 2). generalize (/ (M (ds * / 2) (dl * / 2) * N (ds * / 2) (dl * / 2))). intros y. field.
+Qed.
+
+Lemma sb_secondary_is_masing ds dl : F2 ds dl = 0 <-> F (ds / 2) (dl / 2) = 0.
+Proof. rewrite sb_secondary_is_masing_eq. tauto. Qed.
+
+Lemma sb_load_implicit_is_stress_implicit L s :
+  sb_load_implicit E K n Kp L s = F s L /\ sb_load_secondary_implicit E K n Kp L s = F2 s L.
+Proof. split; reflexivity. Qed.
+
+(* -------- inside the bounds L/K_p < s < L every guard of the source is inactive and the generated function is
+            eq. 2.8-42 as printed in the guideline, with 0 < u < pi/2 *)
+Lemma sb_u_in_bounds s L : 0 < L -> L / Kp < s < L -> 0 < U s L < PI / 2.
+Proof.
+  intros HL [Hlo Hhi]. assert (HKp0 : 0 < Kp) by lra.
+  assert (HLK : 0 < L / Kp) by (apply Rdiv_lt_0_compat; assumption).
+  assert (Hs : 0 < s) by lra.
+  rewrite sb_U_unfold. destruct (Req_EM_T s 0) as [|_]; [lra|].
+  assert (H1 : 1 < L / s).
+  { apply Rmult_lt_reg_r with s; [assumption|]. replace (L / s * s) with L by (field; lra). lra. }
+  assert (H2 : L / s < Kp).
+  { apply Rmult_lt_reg_r with (s / Kp); [apply Rdiv_lt_0_compat; assumption|].
+    replace (L / s * (s / Kp)) with (L / Kp) by (field; lra).
+    replace (Kp * (s / Kp)) with s by (field; lra). assumption. }
+  assert (Hq : 0 < (L / s - 1) / (Kp - 1) < 1).
+  { split; [apply Rdiv_lt_0_compat; lra|].
+    apply Rmult_lt_reg_r with (Kp - 1); [lra|]. replace ((L / s - 1) / (Kp - 1) * (Kp - 1)) with (L / s - 1) by (field; lra). lra. }
+  pose proof PI_RGT_0. split; [apply Rmult_lt_0_compat; lra|].
+  replace (PI / 2) with (PI / 2 * 1) at 2 by ring. apply Rmult_lt_compat_l; lra.
+Qed.
+
+Lemma sb_equation_in_bounds s L : 0 < L -> L / Kp < s < L ->
+  let u := PI / 2 * ((L / s - 1) / (Kp - 1)) in
+  F s L = eps s / ((2 / u ^ 2 * ln (1 / cos u) + (s / L) ^ 2 - s / L) * (L / s * Kp * eps (L / Kp))) - 1.
+Proof.
+  intros HL Hb u. pose proof (sb_u_in_bounds s L HL Hb) as [Hu0 Hu1].
+  assert (HKp0 : 0 < Kp) by lra.
+  assert (HLK : 0 < L / Kp) by (apply Rdiv_lt_0_compat; assumption).
+  assert (HU : U s L = u).
+  { rewrite sb_U_unfold. destruct (Req_EM_T s 0) as [|_]; [lra|reflexivity]. }
+  rewrite sb_F_unfold, sb_M_unfold, sb_N_unfold, HU in *.
+  destruct (Req_EM_T s 0) as [|_]; [lra|]. destruct (Req_EM_T L 0) as [|_]; [lra|].
+  destruct (Req_EM_T u 0) as [|_]; [lra|].
+  assert (Hc : 0 < cos u) by (apply cos_gt_0; lra).
+  destruct (Rlt_dec 0 (cos u)) as [_|]; [|contradiction]. reflexivity.
+Qed.
+
+(* -------- between L/(3 K_p - 2) and L/K_p the cosine is not positive, the source's guard switches the logarithm
+            off, and the function is below -1: no root there, so a root in (L/(3K_p-2), L) lies in (L/K_p, L) *)
+Lemma sb_no_root_below s L : 0 < L -> L / (3 * Kp - 2) < s <= L / Kp -> F s L < -1.
+Proof.
+  intros HL [Hlo Hhi]. assert (HKp0 : 0 < Kp) by lra.
+  assert (H3 : 0 < 3 * Kp - 2) by lra.
+  assert (Hs : 0 < s) by (assert (0 < L / (3 * Kp - 2)) by (apply Rdiv_lt_0_compat; assumption); lra).
+  assert (HLK : 0 < L / Kp) by (apply Rdiv_lt_0_compat; assumption).
+  assert (H1 : Kp <= L / s).
+  { apply Rmult_le_reg_r with (s / Kp); [apply Rdiv_lt_0_compat; assumption|].
+    replace (L / s * (s / Kp)) with (L / Kp) by (field; lra).
+    replace (Kp * (s / Kp)) with s by (field; lra). assumption. }
+  assert (H2 : L / s < 3 * Kp - 2).
+  { apply Rmult_lt_reg_r with (s / (3 * Kp - 2)); [apply Rdiv_lt_0_compat; assumption|].
+    replace (L / s * (s / (3 * Kp - 2))) with (L / (3 * Kp - 2)) by (field; lra).
+    replace ((3 * Kp - 2) * (s / (3 * Kp - 2))) with s by (field; lra). assumption. }
+  assert (Hq : 1 <= (L / s - 1) / (Kp - 1) < 3).
+  { split.
+    - apply Rmult_le_reg_r with (Kp - 1); [lra|]. replace ((L / s - 1) / (Kp - 1) * (Kp - 1)) with (L / s - 1) by (field; lra). lra.
+    - apply Rmult_lt_reg_r with (Kp - 1); [lra|]. replace ((L / s - 1) / (Kp - 1) * (Kp - 1)) with (L / s - 1) by (field; lra). lra. }
+  pose proof PI_RGT_0 as Hpi.
+  assert (HU : PI / 2 <= U s L <= 3 * (PI / 2)).
+  { rewrite sb_U_unfold. destruct (Req_EM_T s 0) as [|_]; [lra|]. nra. }
+  assert (Hc : cos (U s L) <= 0) by (apply cos_le_0; lra).
+  rewrite sb_F_unfold, sb_M_unfold, sb_N_unfold.
+  destruct (Rlt_dec 0 (cos (U s L))) as [|_]; [lra|]. rewrite ln_1, Rmult_0_r, Rplus_0_l.
+  destruct (Req_EM_T s 0) as [|_]; [lra|]. destruct (Req_EM_T L 0) as [|_]; [lra|].
+  assert (Hr : 0 < s / L < 1).
+  { split; [apply Rdiv_lt_0_compat; assumption|].
+    apply Rmult_lt_reg_r with L; [assumption|]. replace (s / L * L) with s by (field; lra).
+    assert (L / Kp < L / 1); [|lra]. unfold Rdiv. apply Rmult_lt_compat_l; [assumption|]. apply Rinv_lt_contravar; lra. }
+  assert (HMn : (s / L) ^ 2 - s / L < 0) by nra.
+  assert (He : 0 < eps (L / Kp)) by (rewrite <- (C16.ro_strain_0 E K n); apply C16.ro_strain_strictly_increasing; assumption).
+  assert (Hes : 0 < eps s) by (rewrite <- (C16.ro_strain_0 E K n); apply C16.ro_strain_strictly_increasing; assumption).
+  assert (HNp : 0 < L / s * Kp * eps (L / Kp)).
+  { apply Rmult_lt_0_compat; [apply Rmult_lt_0_compat; [apply Rdiv_lt_0_compat|]|]; assumption. }
+  set (m := (s / L) ^ 2 - s / L) in *. set (nn := L / s * Kp * eps (L / Kp)) in *.
+  assert (Hmn : m * nn < 0) by nra.
+  assert (Hinv : / (m * nn) < 0) by (apply Rinv_lt_0_compat; assumption).
+  unfold Rdiv. nra.
+Qed.
+
+Lemma sb_root_above_LKp s L : 0 < L -> L / (3 * Kp - 2) < s -> F s L = 0 -> L / Kp < s.
+Proof.
+  intros HL Hlo Hf. destruct (Rlt_le_dec (L / Kp) s) as [|Hle]; [assumption|exfalso].
+  pose proof (sb_no_root_below s L HL (conj Hlo Hle)). lra.
+Qed.
+
+(* -------- a root of the generated function is a solution of the guideline equation  eps(s) = M * N *)
+Lemma sb_root_iff_equation s L : M s L * N s L <> 0 -> (F s L = 0 <-> eps s = M s L * N s L).
+Proof.
+  intros Hnz. rewrite sb_F_unfold. set (X := M s L * N s L) in *. split; intros H.
+  - assert (Hq : eps s / X = 1) by lra.
+    replace (eps s) with (eps s / X * X) by (field; exact Hnz). rewrite Hq. ring.
+  - rewrite H. field. exact Hnz.
+Qed.
+
+Lemma sb_strain_is_ramberg_osgood s L ds dl :
+  sb_strain E K n Kp s L = eps s /\ sb_strain_secondary_branch E K n Kp ds dl = 2 * eps (ds / 2).
+Proof. split; reflexivity. Qed.
+
+End SB.
+
+(* the hypotheses of the sections above are satisfiable (FKM example material, K_p = 3.5, L = 300), and the
+   implications about roots are not vacuous: a root exists (en_root_exists / en_load_exists) *)
+Example c06_guards_satisfiable :
+  exists E K n Kp L : R, 0 < E /\ 0 < K /\ 0 < n < 1 /\ 1 < Kp /\ 0 < L /\
+    exists s, L / Kp <= s <= L /\ en_stress_implicit E K n Kp s L = 0.
+Proof.
+  exists 206000, 1184, (187 / 1000), (7 / 2), 300. repeat split; try lra.
+  apply en_root_exists; lra.
+Qed.
